@@ -206,7 +206,9 @@ class ShapeEval:
                             cur = cur.elts[p]
                         else:
                             ok = False
-                    if ok:
+                    if ok and isinstance(cur, ast.List) and not cur.elts:
+                        outs.append(self._appended_list(var, d))
+                    elif ok:
                         outs.append(self.ev(cur, d.node))
                     else:
                         outs.append(self.sources(ast.Name(id=f"{var}", ctx=ast.Load()), f"unpack:{norm(d.value)}:{d.path}"))
@@ -320,6 +322,9 @@ class ShapeEval:
             a, b = self.ev(e.args[0], at), self.ev(e.args[1], at)
             if a and b and a[0] == "arr" and b[0] == "arr" and len(a[1]) == len(b[1]):
                 return ("arr", tuple(("flat", (x, y)) for x, y in zip(a[1], b[1])))
+            if a and b and a[0] == "arr" and b[0] == "arr" and len(a[1]) == 1 and len(b[1]) == 2:
+                # numpy treats the 1-d operand as a row vector
+                return ("arr", (b[1][0], ("flat", (a[1][0], b[1][1]))))
             return None
         if fname in ("np.concatenate", "numpy.concatenate") and e.args:
             s = self.ev(e.args[0], at)
